@@ -223,20 +223,15 @@ def Holder.resetContainers (h : Holder) (hard : Bool) : Holder :=
     arenaRetained := if hard then 0 else max h.arenaRetained h.arenaAllocs
     arenaAllocs := 0 }
 
-def detachAll (es : List Emitter) (att : List Nat) : List Emitter :=
-  match att with
+/-- walk the attachment list and apply an event handler to every emitter on it
+    (`CodeHolder_detach_emitters`, the loop of `CodeHolder::reinit`, `CodeHolder_on_settings_updated`) -/
+def applyAll (f : Emitter → Emitter) (es : List Emitter) : List Nat → List Emitter
   | [] => es
-  | i :: r => detachAll (updAt es i Emitter.onDetach) r
+  | i :: r => applyAll f (updAt es i f) r
 
-def reinitAll (es : List Emitter) (att : List Nat) : List Emitter :=
-  match att with
-  | [] => es
-  | i :: r => reinitAll (updAt es i Emitter.onReinit) r
-
-def settingsAll (lg : Bool) (es : List Emitter) (att : List Nat) : List Emitter :=
-  match att with
-  | [] => es
-  | i :: r => settingsAll lg (updAt es i (Emitter.settingsUpdated lg)) r
+def detachAll (es : List Emitter) (att : List Nat) : List Emitter := applyAll Emitter.onDetach es att
+def reinitAll (es : List Emitter) (att : List Nat) : List Emitter := applyAll Emitter.onReinit es att
+def settingsAll (lg : Bool) (es : List Emitter) (att : List Nat) : List Emitter := applyAll (Emitter.settingsUpdated lg) es att
 
 /-- `CodeHolder::init` -/
 def World.init (w : World) (a : Arch) : World × String :=
